@@ -7,6 +7,9 @@ length, always BEFORE the logger in the tick) and at most one logger control out
 START / RUN / STOP / ABORT / idle / "new process" (fresh House+Logger+Log objects on the same
 prefix, what a restarted program has).
 
+Injected fault (a third of the cases): the first os.rename of the rotate chain of chosen Log.cycle invocations fails
+with EACCES; nothing has moved, the rotation is abandoned and the main file must go on without losing a record.
+
 Crash points (fault enumeration): the end of every tick and every step inside Log.cycle (before
 and after each os.rename, after the truncating ocfn) - there the log directory is read through
 fresh file descriptors, which is exactly what survives the death of the process (OS buffers
@@ -40,7 +43,7 @@ PROPERTY = "C23"
 LEVEL = "fault_enumeration"
 RULE = ("Hypothesis-generated configurations (keep 0-3 x cyclePeriod x fileSize {0,small,large} x flushPeriod x reuse x "
         "rule always/update x tick length) with histories of 8-60 ticks (write-before-logger, START/RUN/STOP/ABORT/idle/"
-        "new-process controls); crash points enumerated = end of every tick + every step inside Log.cycle (around each "
+        "new-process controls; a third with an injected failure of the first rename of chosen rotations); crash points enumerated = end of every tick + every step inside Log.cycle (around each "
         "rename, after the truncating open), each checked through fresh file descriptors against the file-content model; "
         "thorough adds subprocesses SIGKILLed at a generated crash point. non-trivial = at least 2 observed rotations, or a "
         "crash point with written-but-unflushed records; distinct = distinct (configuration, history) digest")
@@ -298,15 +301,19 @@ def _ioflo_site(tb):
 
 
 class _OsProxy(object):
-    def __init__(self, real, hook):
+    def __init__(self, real, hook, fault=None):
         self._real = real
         self._hook = hook
+        self._fault = fault     # callable: True -> this os.rename fails with EACCES (injected fault)
 
     def __getattr__(self, name):
         return getattr(self._real, name)
 
     def rename(self, old, new):
         self._hook("before rename %s -> %s" % (os.path.basename(old), os.path.basename(new)))
+        if self._fault is not None and self._fault():
+            import errno
+            raise OSError(errno.EACCES, "injected: permission denied", old)
         r = self._real.rename(old, new)
         self._hook("after rename %s -> %s" % (os.path.basename(old), os.path.basename(new)))
         return r
@@ -333,6 +340,9 @@ class Runner(object):
         self.seq = 0
         self.header = "text\t%s\t%s\n_time\ts.seq\ts.pad\n" % ("Always" if case["rule"] == "always" else "Update", LOGNAME)
         self.house = self.logger = self.log = self.share = None
+        self.faults = set(case.get("renamefault") or ())   # indices of the Log.cycle invocations whose first rename fails
+        self.fault_armed = False
+        self.faults_injected = 0
         self.logged = False         # this Log object has written a record
         self.pending = False        # stamped write since the last record
         self.procs = 0
@@ -416,16 +426,23 @@ class Runner(object):
                 pre_ino = None
             logical = len(dm.text(0))
             me.in_cycle = True
+            me.fault_armed = (me.cycle_calls - 1) in me.faults
+            before = me.faults_injected
             try:
                 r = orig_cycle(size=size)
             finally:
                 me.in_cycle = False
+                me.fault_armed = False
+            faulted = me.faults_injected > before
             rotated = False
             if log.paths and len(log.paths) > 1 and pre_ino is not None:
                 try:
                     rotated = os.stat(log.paths[1]).st_ino == pre_ino
                 except OSError:
                     rotated = False
+            if rotated and faulted:
+                me.fail("rotated-although-rename-failed", "the first rename of the rotate chain failed (injected EACCES) and the main "
+                        "file was rotated nevertheless")
             if rotated:
                 me.rotations += 1
                 try:
@@ -436,6 +453,8 @@ class Runner(object):
                     me.fail("rotated-below-size-threshold", "main file rotated with %d bytes on disk (logical %d) < threshold %d"
                             % (actual, logical, size))
                 dm.shift()
+            elif faulted:
+                pass    # the first rename of the chain failed: nothing moved, the main file goes on (no rotation)
             elif log.paths and (not size or logical >= size):
                 me.fail("rotation-skipped-although-size-reached", "Log.cycle(size=%d) was invoked with %d bytes written to the main "
                         "file and did not rotate" % (size, logical))
@@ -459,7 +478,14 @@ class Runner(object):
                 me.hook("after truncating open of %s" % os.path.basename(filename))
             return f
 
-        iolog.os = _OsProxy(real_os, self.hook)
+        def fault():
+            if me.fault_armed:
+                me.fault_armed = False      # only the first rename of that chain
+                me.faults_injected += 1
+                return True
+            return False
+
+        iolog.os = _OsProxy(real_os, self.hook, fault)
         iolog.ocfn = ocfn
         running = False
         try:
@@ -665,6 +691,10 @@ def case_strategy(kill=False):
         case = {"keep": keep, "cycle": cycle, "size": size, "flush": flush, "reuse": reuse, "rule": rule, "dt": dt, "ticks": ticks}
         if kill:
             case["kill"] = draw(st.integers(0, 10000))
+        elif keep and draw(st.integers(0, 2)) == 0:
+            # injected fault: the first os.rename of the rotate chain of these Log.cycle invocations fails (EACCES);
+            # nothing has moved then, the rotation is abandoned and no record may be lost
+            case["renamefault"] = sorted(draw(st.lists(st.integers(0, 6), min_size=1, max_size=3, unique=True)))
         return case
 
     return build()
@@ -681,6 +711,8 @@ def _classes(case, r):
         cl.append("crash-points-inside-cycle")
     if any(t[0] == "abort" for t in case["ticks"]):
         cl.append("has-abort")
+    if r.faults_injected:
+        cl.append("rename-fault-injected")
     total = sum(len(f["lines"]) for f in r.dm.files) if r.dm else 0
     if r.dm and sum(len(r.dm.text(k)) for k in range(len(r.dm.files))) > 8192:
         cl.append("more-than-8KiB-retained")
